@@ -97,6 +97,27 @@ class Ctx:
 
 
 # ----------------------------------------------------------------------------- shard
+def spread_families(cases):
+    """every family of cases is spread evenly over the run (order inside a family is kept): when the time
+    budget ends a run early on a loaded machine, it has seen the same share of every family instead of
+    losing the families that happen to come last"""
+    size, pos, order = {}, {}, {}
+    for c in cases:
+        f = c.get("fam") if isinstance(c, dict) else None
+        size[f] = size.get(f, 0) + 1
+    keyed = []
+    for n, c in enumerate(cases):
+        f = c.get("fam") if isinstance(c, dict) else None
+        k = pos.get(f, 0)
+        pos[f] = k + 1
+        order.setdefault(f, len(order))
+        # second item: the stripe (shard) the case belongs to -- by position inside its family, so that no
+        # family ends up on a single shard
+        keyed.append(((k + 0.5) / size[f], n, k + order[f], c))
+    keyed.sort(key=lambda t: (t[0], t[1]))
+    return [(stripe, c) for _, _, stripe, c in keyed]
+
+
 def shard_main(argv):
     prop, tier, seed, idx, n, out = argv[0], argv[1], int(argv[2]), int(argv[3]), int(argv[4]), argv[5]
     import faulthandler
@@ -118,12 +139,12 @@ def shard_main(argv):
             mod.setup(ctx)
         replay = os.environ.get("VERIF_REPLAY_CASE")
         if replay:
-            cases = [json.loads(replay)]
+            cases = [(0, json.loads(replay))]
             idx, n = 0, 1
         else:
-            cases = mod.cases(tier, seed)
-        for i, case in enumerate(cases):
-            if i % n != idx:
+            cases = spread_families(list(mod.cases(tier, seed)))
+        for stripe, case in cases:
+            if stripe % n != idx:
                 continue
             if time.monotonic() > deadline:
                 ctx.count("skipped_deadline")
